@@ -60,6 +60,13 @@ def candidates():
                 d = os.path.join(inc3, prop, v)
                 if os.path.exists(os.path.join(d, "patch.diff")):
                     out.append((f"{prop}-{'E' if v == 'A' else 'F'}", prop, d))
+    inc4 = os.path.join(VERIF, "seeded", "_incoming4")
+    if os.path.isdir(inc4):
+        for prop in sorted(os.listdir(inc4)):
+            for v in sorted(os.listdir(os.path.join(inc4, prop))):
+                d = os.path.join(inc4, prop, v)
+                if os.path.exists(os.path.join(d, "patch.diff")):
+                    out.append((f"{prop}-{'G' if v == 'A' else 'H'}", prop, d))
     for h, prop in HIST.items():
         d = os.path.join(VERIF, "seeded", h)
         if os.path.exists(os.path.join(d, "patch.diff")):
